@@ -10,6 +10,18 @@ From Coq Require Import List Arith Bool.
 Import ListNotations.
 From PTN Require Import TTN.Store.
 
+(* the laws of a commutative semiring, bundled (hypothesis of every theorem in SemProofs.v) *)
+Record comm_semiring {R : Type} (zero one : R) (add mul : R -> R -> R) : Prop := {
+  csr_add_comm : forall x y, add x y = add y x;
+  csr_add_assoc : forall x y z, add x (add y z) = add (add x y) z;
+  csr_add_0_l : forall x, add zero x = x;
+  csr_mul_comm : forall x y, mul x y = mul y x;
+  csr_mul_assoc : forall x y z, mul x (mul y z) = mul (mul x y) z;
+  csr_mul_1_l : forall x, mul one x = x;
+  csr_mul_0_r : forall x, mul x zero = zero;
+  csr_mul_add_distr_l : forall x y z, mul x (add y z) = add (mul x y) (mul x z)
+}.
+
 Section Sem.
   Variable R : Type.
   Variables (zero one : R) (add mul : R -> R -> R).
@@ -59,6 +71,15 @@ Section Sem.
   Definition entry (d : sarr) (rho0 : assignment) (idx : list nat) : R :=
     value d (assign rho0 (axes d) idx).
 End Sem.
+
+(* executable form of the freshness side condition of the variable-elimination theorem: no atom
+   in atms has an axis on a wire of ws *)
+Definition atoms_avoidb (wires_of : nat -> list wire) (atms : list nat) (ws : list wire) : bool :=
+  forallb (fun a => forallb (fun x => negb (memb x ws)) (wires_of a)) atms.
+
+(* every wire of every atom of d is an axis of d or bound in d (the diagram has no dangling wire) *)
+Definition closedb (wires_of : nat -> list wire) (d : sarr) : bool :=
+  forallb (fun a => forallb (fun x => memb x (axes d) || memb x (bnd d)) (wires_of a)) (atoms d).
 
 (* instantiation with the static data recorded in a store *)
 Definition atom_wires (s : store) (a : nat) : list wire :=
